@@ -474,6 +474,37 @@ pub fn check(ctx: &mut Ctx) {
         let doc = astgen::minimize_doc(&cur.doc, |d| fails(&HistoryCase { doc: d.clone(), spell: cur.spell.clone(), chain: cur.chain.clone() }));
         HistoryCase { doc, spell: cur.spell.clone(), chain: cur.chain.clone() }
     });
+    // deep nesting (far beyond the random generator's depth 3): wrappers that vanish in an earlier run change how deep the
+    // elements inside them are nested in the next run
+    {
+        use astgen::{Cond, Elem, Node};
+        let mut deep: Vec<HistoryCase> = vec![];
+        let spell = Spell { ds: "<".into(), de: ">".into(), tl: "tl".into(), rm: "rm".into(), unreg: "zz".into() };
+        for k in [3usize, 9, 17, 24, 40] {
+            for (conds, chain) in [
+                (vec![(Cond::Tl(0), true)], vec![(1usize, 0u8), (2, 0)]),
+                (vec![(Cond::Tl(0), true), (Cond::Tl(1), false)], vec![(1, 0), (2, 0), (3, 0)]),
+                (vec![(Cond::Rm(1), true), (Cond::Tl(0), true)], vec![(1, 0), (1, 2), (3, 2)]),
+                (vec![(Cond::Tl(1), true)], vec![(1, 0), (3, 0)]),
+            ] {
+                let unit = "  ";
+                let ind = unit.repeat(k.min(6));
+                let leaf = |id: usize, cond: Cond| Node::Block { indent: ind.clone(), open_lead: String::new(), elem: Elem { id, cond, skip: false, unwrap: false, style: 0 }, open_trail: String::new(), kids: vec![Node::Line(format!("{ind}{unit}leaf{id}();"))], close_indent: ind.clone(), close_lead: String::new(), close_trail: String::new() };
+                let inner = vec![Node::Line(format!("{ind}keep_a();")), leaf(k + 1, Cond::Tl(1)), Node::Line(format!("{ind}keep_b();")), leaf(k + 2, Cond::Tl(0)), Node::Line(format!("{ind}keep_c();"))];
+                let doc = astgen::deep_doc(k, &conds, unit, inner);
+                deep.push(HistoryCase { doc, spell: spell.clone(), chain: chain.iter().map(|(n, t)| ACfg { now_idx: *n, targets: *t }).collect() });
+            }
+        }
+        let n = deep.len();
+        ctx.exhaustive("deep-histories", &format!("{n} histories over documents with 3..40 nested (unwrap-block) wrappers around two elements that expire at different times"), deep.into_iter().map(|c| vec![c]).collect(), move |cs, obs| {
+            for c in cs {
+                if let Verdict::Fail(m) = oracle_kf(c, obs, kf) {
+                    return Some(fail_case("deep-histories", c, truncate(&m, 1500)));
+                }
+            }
+            None
+        });
+    }
     // tags that span several lines (the README's own layout) inside an unwrapped body
     let kf10 = ctx.is_known("dedent-rewrites-multi-line-attribute-value");
     if kf10 {
